@@ -63,6 +63,19 @@ type Case struct {
 	// PriorSameDC makes the earlier call run on the very data context (and fact objects) of the validated
 	// call, built from Init: the validated call then starts from whatever the earlier call left behind.
 	PriorSameDC bool
+	// PriorOtherInstance makes that earlier call on the same data context run on another instance of the
+	// knowledge base (PriorKB, or a new one): a data context is not tied to the instance it was first used with.
+	PriorOtherInstance bool
+	PriorKB            *ast.KnowledgeBase
+
+	// Rejected lists resources that are offered to the knowledge base after its first resource and must be
+	// rejected by the builder (syntax error, duplicate rule name, invalid literal somewhere in them): a
+	// rejected resource leaves the knowledge base as it was, so everything the properties say goes on holding.
+	Rejected []string
+	// Batch hands the resources to the builder's batch entry point (BuildRuleFromResources): the first
+	// resource together with the ones to be rejected in one call (which must return an error and keep the
+	// first resource's rules), the remaining resources in a second call.
+	Batch bool
 }
 
 // Violation is a broken clause.
@@ -135,17 +148,59 @@ type Prepared struct {
 func Prepare(c *Case) (*Prepared, error) {
 	var lib *ast.KnowledgeLibrary
 	var err error
-	if len(c.Texts) > 0 {
+	offerRejected := func() error {
+		for i, t := range c.Rejected {
+			berr, pan := obs.BuildInto(lib, obs.KBName, obs.KBVersion, t)
+			if pan != nil {
+				return fmt.Errorf("building the resource that is to be rejected (%d) panicked: %v", i, pan)
+			}
+			if berr == nil {
+				return fmt.Errorf("harness: resource %d that was generated to be rejected was accepted:\n%s", i, t)
+			}
+		}
+		return nil
+	}
+	if c.Batch {
+		lib = ast.NewKnowledgeLibrary()
+		texts := c.Texts
+		if len(texts) == 0 {
+			texts = []string{c.Text}
+		}
+		first := append([]string{texts[0]}, c.Rejected...)
+		berr, pan := obs.BuildBatch(lib, obs.KBName, obs.KBVersion, first)
+		if pan != nil {
+			return nil, fmt.Errorf("BuildRuleFromResources panicked: %v", pan)
+		}
+		if len(c.Rejected) > 0 && berr == nil {
+			return nil, fmt.Errorf("harness: a batch with a resource that was generated to be rejected was accepted")
+		}
+		if len(c.Rejected) == 0 && berr != nil {
+			return nil, fmt.Errorf("building the first resource through the batch entry point: %v", berr)
+		}
+		if len(texts) > 1 {
+			if berr, _ := obs.BuildBatch(lib, obs.KBName, obs.KBVersion, texts[1:]); berr != nil {
+				return nil, fmt.Errorf("building the remaining resources through the batch entry point: %v", berr)
+			}
+		}
+	} else if len(c.Texts) > 0 {
 		lib = ast.NewKnowledgeLibrary()
 		for i, t := range c.Texts {
 			if berr, _ := obs.BuildInto(lib, obs.KBName, obs.KBVersion, t); berr != nil {
 				return nil, fmt.Errorf("building resource %d of the rule set: %v", i, berr)
+			}
+			if i == 0 {
+				if rerr := offerRejected(); rerr != nil {
+					return nil, rerr
+				}
 			}
 		}
 	} else {
 		lib, err = obs.Build(c.Text)
 		if err != nil {
 			return nil, fmt.Errorf("building the rule set: %v", err)
+		}
+		if rerr := offerRejected(); rerr != nil {
+			return nil, rerr
 		}
 	}
 	p := &Prepared{Lib: lib, ByName: map[string]*gast.Rule{}}
@@ -256,7 +311,18 @@ func RunOn(c *Case, p *Prepared, kb *ast.KnowledgeBase) *Report {
 	if priorSame {
 		// the earlier call on the same data context (neutral probes)
 		probe.Oracle = true
-		pres := obs.Execute(kb, dc, obs.RunOpts{MaxCycle: c.PriorMaxCycle})
+		pkb := kb
+		if c.PriorOtherInstance {
+			pkb = c.PriorKB
+			if pkb == nil {
+				if other, oerr := obs.Instance(lib); oerr == nil {
+					pkb = other
+				} else {
+					pkb = kb
+				}
+			}
+		}
+		pres := obs.Execute(pkb, dc, obs.RunOpts{MaxCycle: c.PriorMaxCycle})
 		probe.Oracle = false
 		rep.PriorErr = pres.Err
 		if dc.IsComplete() {
